@@ -166,8 +166,16 @@ func wireEncode(v *wireVec) (*wireCase, error) {
 		if tz < 0 {
 			sign, tz = "-", -tz
 		}
-		c.cfg = map[string]any{"after": hhmmss(mi(cfg, "after")), "before": hhmmss(mi(cfg, "before")), "timezone": fmt.Sprintf("%s%02d:%02d", sign, tz/3600, tz/60%60)}
-		t := time.Date(2026, 3, 10, 0, 0, 0, 0, time.UTC).Add(time.Duration(mi(m, "utc")) * time.Second)
+		zone := fmt.Sprintf("%s%02d:%02d", sign, tz/3600, tz/60%60)
+		if tz == 99999 {
+			zone = "Europe/Berlin"
+		}
+		c.cfg = map[string]any{"after": hhmmss(mi(cfg, "after")), "before": hhmmss(mi(cfg, "before")), "timezone": zone}
+		month := time.January
+		if ms_(m, "season") == "summer" {
+			month = time.July
+		}
+		t := time.Date(2026, month, 15, 0, 0, 0, 0, time.UTC).Add(time.Duration(mi(m, "utc")) * time.Second)
 		c.when = &t
 	case "ip":
 		c.first = []byte("x")
